@@ -162,6 +162,12 @@ func (x *Exec) arith(st *State, op string, p, q *Term, t types.Type, pos token.P
 }
 
 func (x *Exec) strConcat(st *State, p, q *Term) *Term {
+	if p == strEmpty || p.Op == "str.empty" {
+		return q
+	}
+	if q == strEmpty || q.Op == "str.empty" {
+		return p
+	}
 	if x.strTheory {
 		return mk("str.++", SStr, p, q)
 	}
